@@ -69,6 +69,14 @@ def parse_tokens(blob: bytes, slen: int) -> list[tuple[bytes, bytes, bytes, byte
     return out
 
 
+def tokens_all_signed(blob: bytes, key_bin: bytes) -> bool:
+    """"The disclosed chain verifies" at its weakest: every token in the message is validly signed by the discloser."""
+    slen = sig_len(key_bin)
+    if len(blob) % (64 + slen):
+        return False
+    return all(sig_ok(key_bin, sig, prev + content) for _h, prev, content, sig in parse_tokens(blob, slen))
+
+
 def parse_metadata(blob: bytes, slen: int) -> list[tuple[bytes, bytes, bytes, bytes]]:
     """-> [(metadata_hash, token_pointer, json_bytes, signature)]."""
     out = []
